@@ -726,6 +726,7 @@ class FileSearcher(SearcherBase):
         results_manager = SearchTaskResultsManager(
                             results_store,
                             results_queue=results_queue)
+        pool_broken = False
         try:
             num_workers = self.num_parallel_tasks
             with concurrent.futures.ProcessPoolExecutor(
@@ -749,6 +750,7 @@ class FileSearcher(SearcherBase):
                         self.stats.update(future.result())
                         self.stats['jobs_completed'] += 1
                 except concurrent.futures.process.BrokenProcessPool as exc:
+                    pool_broken = True
                     msg = ("one or more worker processes has died - "
                            "aborting search")
                     raise FileSearchException(msg) from exc
@@ -773,6 +775,16 @@ class FileSearcher(SearcherBase):
                 self._ensure_worker_processes_killed()
                 log.debug("terminating pool")
         finally:
+            if pool_broken:
+                # All workers are gone by now. One that died while holding
+                # the store lock can never release it so do that here
+                # otherwise we (and any subsequent run) would block forever.
+                if not RESULTS_STORE_LOCK.acquire(timeout=5):
+                    log.warning("releasing results store lock left held by "
+                                "a dead worker")
+
+                RESULTS_STORE_LOCK.release()
+
             results_thread.stop()
             info_thread.stop()
 
